@@ -49,6 +49,23 @@ def p_pair(ab):
         return '==/!= inconsistent for (%r,%r)' % (a, b)
     if va == vb and (r != 0 or hash(va) != hash(vb)):
         return '%r == %r but compare=%r or hashes differ' % (a, b, r)
+    # the answer depends on the three parts a version holds, however the object came to hold them: derived from
+    # another (already compared) version with attr.evolve, copied, built from the parts
+    import attr
+    import copy
+    ways = [('attr.evolve of the other version', lambda: attr.evolve(vb, epoch=va.epoch, upstream=va.upstream, revision=va.revision)),
+            ('attr.evolve of the same version', lambda: attr.evolve(va, revision=va.revision)),
+            ('a deep copy', lambda: copy.deepcopy(va)),
+            ('a version built from the parts', lambda: Version(epoch=va.epoch, upstream=va.upstream, revision=va.revision))]
+    for how, mk in ways:
+        try:
+            w = mk()
+        except Exception:  # noqa  (a class that cannot be evolved: nothing to compare)
+            continue
+        got = [w.compare(vb), vb.compare(w), w < vb, w <= vb, w > vb, w >= vb, w == va, hash(w) == hash(va), w.compare(va)]
+        want = [r, -r, r < 0, r <= 0, r > 0, r >= 0, True, True, 0]
+        if got != want:
+            return '%s holding the parts of %r answers %r against %r; %r itself answers %r' % (how, a, got, b, a, want)
     return None
 
 
